@@ -193,8 +193,17 @@ Fixpoint rrun2 (w : sameness) (s : rstate) (k : case_reload2) : list (bool * boo
       ((mok, p_all (r_px s'), p_map (r_px s')) :: outs, agree && rest)
   end.
 
+(* a clock step of the suite is never negative (the harness only moves the mock
+   clock forward); a case that carries one is REFUSED before anything is
+   compared — [Some []], which is not a list of observations of a non-empty
+   case — so that an accepted case satisfies the premise of the drain theorem
+   (ReloadLeak.drained_after_ttl, Property.C14_unmanaged_after_ttl) *)
+Definition neg_adv2 (k : case_reload2) : bool :=
+  existsb (fun x => match fst x with R2Advance ns => ns <? 0 | _ => false end) k.
+
 Definition run_reload2_with (w : sameness) (k : case_reload2)
   : option (list (bool * bool * list str)) :=
+  if neg_adv2 k then Some [] else
   let '(outs, agree) := rrun2 w rinit k in
   if agree then None else Some outs.
 
@@ -331,4 +340,113 @@ Lemma policy_rreq_erase : forall ds grem gdiag,
 Proof.
   intros ds grem gdiag. unfold erase, policy_rreq, policy_req. cbn [rq_all rq_eps]. f_equal.
   rewrite map_map. reflexivity.
+Qed.
+
+(* ------------------------------------------------------------------ *)
+(* The suite's run function IS a run of [qrun] (hence, by [qrun_erase],  *)
+(* of [Reload.run Recheck])                                              *)
+
+(* the operation of the transition system a step of the case denotes in state
+   [s]; a load the engine refuses denotes none (the state is unchanged) *)
+Definition op_of (s : rstate) (o : rop2) : option rqop :=
+  match o with
+  | R2LoadF fl =>
+      let frs := map (fun x => (mk_flow (fst x), snd x)) fl in
+      if C03.Model.load_ok (map fst frs) then Some (QLoad Flows (flows_rreq frs)) else None
+  | R2LoadP dl (gr, gd) imm =>
+      let ds := map mk_decl dl in
+      let grem := map (fun e => {| C13.Model.r_name := 0; C13.Model.r_type := 0;
+                                   C13.Model.r_enabled := e |}) gr in
+      let gdiag := map (fun e => {| C13.Model.g_name := 0; C13.Model.g_enabled := e |}) gd in
+      match C13.Model.build ds with
+      | Some _ => Some (QLoad (match r_cur s with None => Flows | Some _ => Policies imm end)
+                              (policy_rreq ds grem gdiag))
+      | None => None
+      end
+  | R2Advance ns => Some (QAdvance ns)
+  end.
+
+Lemma rstep2_qstep : forall w s o,
+  fst (rstep2 w s o) = match op_of s o with Some q => qstep w s q | None => s end.
+Proof.
+  intros w s o. destruct o as [fl | dl [gr gd] imm | ns]; cbn [rstep2 op_of].
+  - destruct (C03.Model.load_ok _); reflexivity.
+  - destruct (C13.Model.build _); [|reflexivity]. destruct (r_cur s); reflexivity.
+  - reflexivity.
+Qed.
+
+(* the state [rrun2] threads through the steps [os] of a case *)
+Definition rfinal2 (w : sameness) (s : rstate) (os : list rop2) : rstate :=
+  fold_left (fun s o => fst (rstep2 w s o)) os s.
+
+(* the history (operations of the transition system) the steps [os] denote from [s] *)
+Fixpoint ops_of (w : sameness) (s : rstate) (os : list rop2) : list rqop :=
+  match os with
+  | [] => []
+  | o :: os' =>
+      match op_of s o with
+      | Some q => q :: ops_of w (qstep w s q) os'
+      | None => ops_of w s os'
+      end
+  end.
+
+Lemma rfinal2_qrun : forall w os s, rfinal2 w s os = qrun w (ops_of w s os) s.
+Proof.
+  intros w os. unfold rfinal2, qrun.
+  induction os as [| o os IH]; intros s; [reflexivity |].
+  cbn [fold_left ops_of]. rewrite rstep2_qstep.
+  destruct (op_of s o) as [q |]; cbn [fold_left]; apply IH.
+Qed.
+
+(* a case the suite accepts: at every step the observation carried by the case
+   is that of the state reached by the steps up to there *)
+Lemma rrun2_agree_nth : forall w k s n o ok all keys,
+  snd (rrun2 w s k) = true ->
+  nth_error k n = Some (o, (ok, all, keys)) ->
+  p_all (r_px (rfinal2 w s (map fst (firstn (S n) k)))) = all /\
+  strs_same (p_map (r_px (rfinal2 w s (map fst (firstn (S n) k))))) keys = true.
+Proof.
+  intros w k. induction k as [| [o0 [[ok0 all0] keys0]] k IH]; intros s n o ok all keys A N.
+  - destruct n; discriminate.
+  - cbn [rrun2] in A. destruct (rstep2 w s o0) as [s' mok] eqn:E.
+    destruct (rrun2 w s' k) as [outs rest] eqn:R. cbn [snd] in A.
+    apply andb_true_iff in A. destruct A as [A1 A2].
+    change (firstn (S n) ((o0, (ok0, all0, keys0)) :: k))
+      with ((o0, (ok0, all0, keys0)) :: firstn n k).
+    unfold rfinal2. cbn [map fst fold_left]. rewrite E. cbn [fst].
+    destruct n as [| n].
+    + cbn [nth_error] in N. injection N as -> -> -> ->. cbn [firstn map fold_left].
+      apply andb_true_iff in A1. destruct A1 as [A1 A3].
+      apply andb_true_iff in A1. destruct A1 as [_ A1].
+      split; [apply eqb_prop; exact A1 | exact A3].
+    + cbn [nth_error] in N. apply (IH s' n o ok all keys); [rewrite R; exact A2 | exact N].
+Qed.
+
+Lemma run_reload2_with_none : forall w k,
+  run_reload2_with w k = None -> neg_adv2 k = false /\ snd (rrun2 w rinit k) = true.
+Proof.
+  intros w k H. unfold run_reload2_with in H.
+  destruct (neg_adv2 k); [discriminate |]. split; [reflexivity |].
+  destruct (rrun2 w rinit k) as [outs agree]. destruct agree; [reflexivity | discriminate].
+Qed.
+
+(* THE BRIDGE suite reload -> qrun -> run Recheck.  On a case the suite accepts
+   (run_reload2 k = None, what ./check demands of every case), the proxy state
+   the implementation showed after step n (manage_all, keys of endpoints.map) is
+   the proxy state of [Reload.run Recheck] after the history the first n+1
+   steps denote, requirements forgotten. *)
+Theorem accepted_reload_case_is_a_run : forall k n o ok all keys,
+  run_reload2 k = None ->
+  nth_error k n = Some (o, (ok, all, keys)) ->
+  let ops := ops_of SameExpr rinit (map fst (firstn (S n) k)) in
+  let s := run Recheck (map erase_op ops) init in
+  p_all (s_px s) = all /\ strs_same (p_map (s_px s)) keys = true.
+Proof.
+  intros k n o ok all keys H N ops s.
+  destruct (run_reload2_with_none SameExpr k H) as [_ A].
+  destruct (rrun2_agree_nth SameExpr k rinit n o ok all keys A N) as [P1 P2].
+  rewrite rfinal2_qrun in P1, P2. fold ops in P1, P2.
+  assert (E : r_px (qrun SameExpr ops rinit) = s_px s).
+  { unfold s. change init with (erase_state rinit). rewrite <- qrun_erase. reflexivity. }
+  rewrite E in P1, P2. split; assumption.
 Qed.
